@@ -362,7 +362,11 @@ theorem restore_loads {s : St} {H : List (Nat × Nat)} {tn tn' : Nat} (hc : Core
       exact ⟨pn, by simpa using hj.symm⟩
     · exact absurd hj (by simp)
   rw [filterMap_map_all_some _ _ hlive]
-  apply loadPaths_succeeds (n := s.n) _ _ (rd_blank ..)
+  -- the restored start state agrees with `blank` on everything `load_paths` reads (n, trajs, locks)
+  have hb := rd_blank s.n workers tsteps (persist s).cstep (persist s).trajNum (persist s).seed occ
+    ensEng true (persist s).locked
+  refine loadPaths_succeeds (n := s.n) _ _ ?_ ?_ ?_
+  · exact ⟨hb.hn, hb.lenT, hb.locks⟩
   · intro hnil
     have := congrArg List.length hnil
     simp only [List.length_map, List.length_nil] at this
